@@ -38,6 +38,13 @@ B_SHAPES = ["leftrec", "expr", "nullable-mid", "ambig-concat", "nullable-end", "
 
 LAYOUT_WS = "\nLAYOUT: LI | LAYOUT LI | EMPTY;\nLI: SP | NL | TB;\n"
 LAYOUT_WS_T = "SP: ' ';\nNL: '\\n';\nTB: '\\t';"
+# other ways to write "runs of the ws characters (or nothing)": left recursion first, or behind a nullable nonterminal
+LAYOUT_SHAPES = {
+    "std": LAYOUT_WS,
+    "leftrec": "\nLAYOUT: LAYOUT LI | EMPTY;\nLI: SP | NL | TB;\n",
+    "nested": "\nLAYOUT: Items;\nItems: Items LI | EMPTY;\nLI: SP | NL | TB;\n",
+    "rightrec": "\nLAYOUT: LI LAYOUT | EMPTY;\nLI: SP | NL | TB;\n",
+}
 LAYOUT_CMT = """
 LAYOUT: LayoutItem | LAYOUT LayoutItem | EMPTY;
 LayoutItem: WS | Comment;
@@ -65,6 +72,17 @@ def cases(tier, seed):
     for nm in names:
         for mode in ("lr", "glr"):
             out.append(_case("B", nm, mode, 4 if q else 5))
+    for nm in ("leftrec", "nullable-mid"):
+        for mode in ("lr", "glr"):
+            for shp in ("leftrec", "nested", "rightrec"):
+                c = _case("B", nm, mode, 4)
+                c["name"] += "|LAYOUT=" + shp
+                c["params"]["lshape"] = shp
+                out.append(c)
+            c = _case("B", nm, mode, 4)
+            c["name"] += "|ws=None"
+            c["params"]["wsnone"] = True  # with a LAYOUT rule the ws parameter is irrelevant, also when it is None
+            out.append(c)
     tw = _case("A", "leftrec", "lr", 3)
     tw["name"] = "twin:" + tw["name"]
     tw["params"]["twin"] = True
@@ -147,7 +165,8 @@ def build(params, symbolic):
         p2 = mk(text)  # the stripped input is parsed WITHOUT the comment layout (stripping may join '/' '/' into a new comment)
     else:
         p1 = mk(text, ws=" \n\t")
-        p2 = mk(text + LAYOUT_WS + tsec + LAYOUT_WS_T)
+        lkw = {"ws": None} if params.get("wsnone") else {}
+        p2 = mk(text + LAYOUT_SHAPES[params.get("lshape", "std")] + tsec + LAYOUT_WS_T, **lkw)
     stats = {}
 
     def outcome(parser, w, n, laychars, with_pos):
